@@ -276,6 +276,20 @@ func (v *VerifLoop) Snapshot() map[int]VerifConnState {
 	return out
 }
 
+// OutFragReqs lists the request bytes of the fragments queued for writing on connection fd, oldest
+// first (which node a fragment was routed to is visible here before the write round runs).
+func (v *VerifLoop) OutFragReqs(fd int) [][]byte {
+	c, ok := v.el.connections[fd]
+	if !ok || c.outFragQueue == nil {
+		return nil
+	}
+	var out [][]byte
+	for f := c.outFragQueue.head; f != nil; f = f.prev {
+		out = append(out, append([]byte{}, f.Req...))
+	}
+	return out
+}
+
 // IsOpen reports whether fd is still a registered, opened connection.
 func (v *VerifLoop) IsOpen(fd int) bool {
 	c, ok := v.el.connections[fd]
